@@ -427,6 +427,10 @@ def same_live_state(a, b):
 def c14(res, v):
     r = v.r
     for step, op in enumerate(r.log):
+        if op[0] == 'post' and op[2][0] == 'lenzero' and addressable(r, step, op[1]):
+            evs = [o for o in r.outs[step] if o[0] == 'ev' and isinstance(o[2], tuple) and o[2][0] == 'message']
+            if evs:
+                viol(res, v, 'data beyond the declared Content-Length (0 or absent) was read and reached the message handler', 'declared-length', step=step)
         # (a POST is admitted only if polling is allowed and the session is not on WebSocket: otherwise it is refused for that, its body unseen)
         if op[0] == 'post' and op[2][0] == 'toolong' and addressable(r, step, op[1]) and r.cfg.polling and not r.pre[step][op[1]][3]:
             evs = [o for o in r.outs[step] if o[0] == 'ev' and isinstance(o[2], tuple) and o[2][0] == 'message']
